@@ -61,6 +61,7 @@ func EncodeWithColor(content string, level ErrorCorrectionLevel, mode Encoding, 
 		return nil, err
 	}
 
+	verifEmit("qr.split", nil, bits.Len(), vi.totalDataBytes())
 	blocks := splitToBlocks(bits.IterateBytes(), vi)
 	data := blocks.interleave(vi)
 	result := render(data, vi, color)
@@ -171,7 +172,9 @@ func setMasked(x, y int, val bool, mask int, set func(int, int, bool)) {
 func iterateModules(occupied *qrcode) <-chan image.Point {
 	result := make(chan image.Point)
 	allPoints := make(chan image.Point)
+	verifEmit("go.spawn", occupied, 1, 0)
 	go func() {
+		defer verifEmit("go.exit", occupied, 1, 0)
 		curX := occupied.dimension - 1
 		curY := occupied.dimension - 1
 		isUpward := true
@@ -212,7 +215,9 @@ func iterateModules(occupied *qrcode) <-chan image.Point {
 
 		close(allPoints)
 	}()
+	verifEmit("go.spawn", occupied, 2, 0)
 	go func() {
+		defer verifEmit("go.exit", occupied, 2, 0)
 		for pt := range allPoints {
 			if !occupied.Get(pt.X, pt.Y) {
 				result <- pt
